@@ -1,9 +1,9 @@
 (* C03 -- Boundary operators are equivariant under motion, scaling and relabelling.
    Only statements; proofs in theories/AssemblyA/{Equivariance,KernelInvariance}.v. *)
-From Coq Require Import List Arith Bool Permutation Reals.
+From Coq Require Import List Arith Bool Permutation Reals String.
 From BVgen Require Import NumbaKernels.
 From BV Require Import AssemblyA.Sums AssemblyA.Mat AssemblyA.Dense AssemblyA.Congruence AssemblyA.Equivariance
-     AssemblyA.KernelInvariance.
+     Kernels.Invariance.
 
 (* relabelling elements (pi), local indices (loc: cyclic rotation of the local vertex order, orientation flip),
    global DOFs (rho) and signs of edge functions (sgn): the assembled matrix is the permuted, sign-changed matrix.
@@ -72,7 +72,7 @@ Print Assumptions C03_geometry_from_differences.
 
 (* orthogonal maps preserve det(J'J) (integration elements); scaling by s multiplies it by s^4 *)
 Theorem C03_integration_element_rotation :
-  forall (A : Type) (R : CRing A) (Q : mat3) (a b : pt3 A), orthogonal Q -> req (gram_det (mv Q a) (mv Q b)) (gram_det a b).
+  forall (A : Type) (R : CRing A) (Q : mat3) (a b : pt3 A), Equivariance.orthogonal Q -> req (gram_det (mv Q a) (mv Q b)) (gram_det a b).
 Proof. exact @gram_det_orthogonal. Qed.
 Print Assumptions C03_integration_element_rotation.
 
@@ -82,38 +82,26 @@ Theorem C03_integration_element_scaling :
 Proof. exact @gram_det_scaling. Qed.
 Print Assumptions C03_integration_element_scaling.
 
-(* Laplace kernels regenerated from numba_kernels.py: invariant under x -> Qx + t, n -> Qn for orthogonal Q *)
+(* ALL 18 scalar Green's-function kernels regenerated from numba_kernels.py (Laplace / Helmholtz with complex k /
+   modified Helmholtz; single, double, adjoint double layer; regular and singular variants; table [kernel_forms],
+   names as in select_numba_kernels): K(Qx+t, Qy+t, Q n_x, Q n_y, k) = K(x, y, n_x, n_y, k) for orthogonal Q, x <> y *)
 Theorem C03_kernel_rigid_invariance :
-  forall q00 q01 q02 q10 q11 q12 q20 q21 q22 t0 t1 t2 : R,
-    orth q00 q01 q02 q10 q11 q12 q20 q21 q22 ->
-    let P0 := fun x0 x1 x2 => (q00 * x0 + q01 * x1 + q02 * x2 + t0)%R in
-    let P1 := fun x0 x1 x2 => (q10 * x0 + q11 * x1 + q12 * x2 + t1)%R in
-    let P2 := fun x0 x1 x2 => (q20 * x0 + q21 * x1 + q22 * x2 + t2)%R in
-    let V0 := fun x0 x1 x2 => (q00 * x0 + q01 * x1 + q02 * x2)%R in
-    let V1 := fun x0 x1 x2 => (q10 * x0 + q11 * x1 + q12 * x2)%R in
-    let V2 := fun x0 x1 x2 => (q20 * x0 + q21 * x1 + q22 * x2)%R in
-    forall x0 x1 x2 y0 y1 y2 nx0 nx1 nx2 ny0 ny1 ny2 p0 p1 : R,
-      laplace_single_layer_regular (P0 x0 x1 x2) (P1 x0 x1 x2) (P2 x0 x1 x2) (P0 y0 y1 y2) (P1 y0 y1 y2) (P2 y0 y1 y2)
-         (V0 nx0 nx1 nx2) (V1 nx0 nx1 nx2) (V2 nx0 nx1 nx2) (V0 ny0 ny1 ny2) (V1 ny0 ny1 ny2) (V2 ny0 ny1 ny2) p0 p1
-      = laplace_single_layer_regular x0 x1 x2 y0 y1 y2 nx0 nx1 nx2 ny0 ny1 ny2 p0 p1 /\
-      laplace_double_layer_regular (P0 x0 x1 x2) (P1 x0 x1 x2) (P2 x0 x1 x2) (P0 y0 y1 y2) (P1 y0 y1 y2) (P2 y0 y1 y2)
-         (V0 nx0 nx1 nx2) (V1 nx0 nx1 nx2) (V2 nx0 nx1 nx2) (V0 ny0 ny1 ny2) (V1 ny0 ny1 ny2) (V2 ny0 ny1 ny2) p0 p1
-      = laplace_double_layer_regular x0 x1 x2 y0 y1 y2 nx0 nx1 nx2 ny0 ny1 ny2 p0 p1 /\
-      laplace_adjoint_double_layer_regular (P0 x0 x1 x2) (P1 x0 x1 x2) (P2 x0 x1 x2) (P0 y0 y1 y2) (P1 y0 y1 y2) (P2 y0 y1 y2)
-         (V0 nx0 nx1 nx2) (V1 nx0 nx1 nx2) (V2 nx0 nx1 nx2) (V0 ny0 ny1 ny2) (V1 ny0 ny1 ny2) (V2 ny0 ny1 ny2) p0 p1
-      = laplace_adjoint_double_layer_regular x0 x1 x2 y0 y1 y2 nx0 nx1 nx2 ny0 ny1 ny2 p0 p1.
-Proof. exact laplace_rigid_all. Qed.
+  forall (Q : rot) (t0 t1 t2 : R), Invariance.orthogonal Q ->
+  forall name G deg g, In (name, G, deg) kernel_forms -> numba_kernel name = Some g ->
+  forall x0 x1 x2 y0 y1 y2 nx0 nx1 nx2 ny0 ny1 ny2 p0 p1 : R, (x0, x1, x2) <> (y0, y1, y2) ->
+    g (mv0 Q t0 x0 x1 x2) (mv1 Q t1 x0 x1 x2) (mv2 Q t2 x0 x1 x2) (mv0 Q t0 y0 y1 y2) (mv1 Q t1 y0 y1 y2) (mv2 Q t2 y0 y1 y2)
+      (ap0 Q nx0 nx1 nx2) (ap1 Q nx0 nx1 nx2) (ap2 Q nx0 nx1 nx2)
+      (ap0 Q ny0 ny1 ny2) (ap1 Q ny0 ny1 ny2) (ap2 Q ny0 ny1 ny2) p0 p1
+    = g x0 x1 x2 y0 y1 y2 nx0 nx1 nx2 ny0 ny1 ny2 p0 p1.
+Proof. exact kernels_rigid_motion_invariant. Qed.
 Print Assumptions C03_kernel_rigid_invariance.
 
-(* homogeneity away from the diagonal: K_sl(sx, sy) = K_sl(x, y)/s, K_dl and K_adl scale with 1/s^2 *)
+(* homogeneity with the wavenumber scaled by 1/s: K(sx, sy, n, k/s) = s^-deg K(x, y, n, k), deg = 1 (single layer),
+   2 (double / adjoint double layer), s > 0, x <> y *)
 Theorem C03_kernel_homogeneity :
-  forall s x0 x1 x2 y0 y1 y2 nx0 nx1 nx2 ny0 ny1 ny2 p0 p1 : R,
-    (0 < s)%R -> (0 < (y0 - x0) * (y0 - x0) + (y1 - x1) * (y1 - x1) + (y2 - x2) * (y2 - x2))%R ->
-    fst (laplace_single_layer_regular (s * x0) (s * x1) (s * x2) (s * y0) (s * y1) (s * y2) nx0 nx1 nx2 ny0 ny1 ny2 p0 p1)
-    = (fst (laplace_single_layer_regular x0 x1 x2 y0 y1 y2 nx0 nx1 nx2 ny0 ny1 ny2 p0 p1) / s)%R /\
-    fst (laplace_double_layer_regular (s * x0) (s * x1) (s * x2) (s * y0) (s * y1) (s * y2) nx0 nx1 nx2 ny0 ny1 ny2 p0 p1)
-    = (fst (laplace_double_layer_regular x0 x1 x2 y0 y1 y2 nx0 nx1 nx2 ny0 ny1 ny2 p0 p1) / (s * s))%R /\
-    fst (laplace_adjoint_double_layer_regular (s * x0) (s * x1) (s * x2) (s * y0) (s * y1) (s * y2) nx0 nx1 nx2 ny0 ny1 ny2 p0 p1)
-    = (fst (laplace_adjoint_double_layer_regular x0 x1 x2 y0 y1 y2 nx0 nx1 nx2 ny0 ny1 ny2 p0 p1) / (s * s))%R.
-Proof. exact laplace_homogeneous_all. Qed.
+  forall name G deg g, In (name, G, deg) kernel_forms -> numba_kernel name = Some g ->
+  forall s x0 x1 x2 y0 y1 y2 nx0 nx1 nx2 ny0 ny1 ny2 p0 p1 : R, (0 < s)%R -> (x0, x1, x2) <> (y0, y1, y2) ->
+    g (s * x0)%R (s * x1)%R (s * x2)%R (s * y0)%R (s * y1)%R (s * y2)%R nx0 nx1 nx2 ny0 ny1 ny2 (p0 / s)%R (p1 / s)%R
+    = scale_pair (/ s ^ deg)%R (g x0 x1 x2 y0 y1 y2 nx0 nx1 nx2 ny0 ny1 ny2 p0 p1).
+Proof. exact kernels_homogeneous. Qed.
 Print Assumptions C03_kernel_homogeneity.
